@@ -627,7 +627,12 @@ where
         let mut cur_result = if index + 1 == num_threads {
             match mem::replace(&mut compression_last_thread_result, Err(())) {
                 Ok(result) => result,
-                Err(_err) => return Err(BrotliEncoderThreadError::OtherThreadPanic),
+                Err(_err) => {
+                    if compression_result.is_ok() {
+                        compression_result = Err(BrotliEncoderThreadError::OtherThreadPanic);
+                    }
+                    continue;
+                }
             }
         } else {
             match mem::replace(
@@ -640,7 +645,12 @@ where
                 InternalSendAlloc::Join(join) => match join.join() {
                     Ok(result) => result,
                     Err(err) => {
-                        return Err(err);
+                        // keep joining the other jobs: the input can only be handed back to
+                        // its owner once nobody else holds it
+                        if compression_result.is_ok() {
+                            compression_result = Err(err);
+                        }
+                        continue;
                     }
                 },
             }
